@@ -935,6 +935,38 @@ def _is_local_procedure(fnode, hnode, allow_nested=False):
     return allow_nested or not any(isinstance(x, (ast.FunctionDef, ast.Lambda, ast.ClassDef)) for st in hnode.body for x in ast.walk(st))
 
 
+def _while_tests_to_breaks(stmts, repo, f, new_funcs, resolve_helper, counter):
+    """while A and h(x): BODY     (h a new helper called in the loop test)
+    ->  while True: if not A: break; t = h(x); if not t: break; BODY       - the conjuncts are tested in order at the top of every iteration,
+    exactly as the short-circuit test did, and the helper call stands in statement position where it can be spliced"""
+    out = []
+    for st in stmts:
+        if isinstance(st, ast.While) and not st.orelse and not (isinstance(st.test, ast.Constant) and st.test.value is True):
+            def has_new(e):
+                for c in ast.walk(e):
+                    if isinstance(c, ast.Call):
+                        h, _ = resolve_helper(repo, f, c)
+                        if h is not None and h.qname in new_funcs and h.node is not f.node:
+                            return True
+                return False
+            if has_new(st.test):
+                conj = st.test.values if isinstance(st.test, ast.BoolOp) and isinstance(st.test.op, ast.And) else [st.test]
+                head = []
+                for c in conj:
+                    if has_new(c):
+                        counter[0] += 1
+                        t = f"test__w{counter[0]}"
+                        head.append(ast.Assign(targets=[ast.Name(id=t, ctx=ast.Store())], value=c, lineno=st.lineno, col_offset=0))
+                        c = ast.Name(id=t, ctx=ast.Load())
+                    head.append(ast.If(test=ast.UnaryOp(op=ast.Not(), operand=c), body=[ast.Break()], orelse=[], lineno=st.lineno, col_offset=0))
+                new = ast.While(test=ast.Constant(value=True), body=head + list(st.body), orelse=[], lineno=st.lineno, col_offset=0)
+                ast.fix_missing_locations(new)
+                out.append(new)
+                continue
+        out.append(st)
+    return out
+
+
 def _generator_locals_to_loops(stmts, repo, f, new_funcs, resolve_helper):
     """g = gen(args); for x in g: BODY     (g bound once, mentioned nowhere else; gen a new generator helper; the loop is the very next
     statement, so the arguments are evaluated at the same point)   ->   for x in gen(args): BODY"""
@@ -1000,6 +1032,7 @@ def inline_new_helpers(repo, new_funcs, resolve_helper, bind_args, max_rounds=2)
                 stmts = _first_of_generator(stmts, repo, f, new_funcs, resolve_helper)
                 stmts = _conditional_values_to_statements(stmts, repo, f, new_funcs, resolve_helper)
                 stmts = _generator_locals_to_loops(stmts, repo, f, new_funcs, resolve_helper)
+                stmts = _while_tests_to_breaks(stmts, repo, f, new_funcs, resolve_helper, counter)
                 out = []
                 for st in stmts:
                     # recurse into compound statements first
